@@ -31,7 +31,7 @@ ASSUMPTIONS = [
     "CSV/TSV str fields exclude '\\n' and '\\r'; field types are real classes (int, float, str), not string annotations",
     "files are UTF-8 (PYTHONUTF8=1); strings with lone surrogates are not written to files",
 ]
-NCASES = {"quick": 1600, "thorough": 40000}
+NCASES = {"quick": 3200, "thorough": 200000}
 NSHARDS = 16
 SHARD_TIMEOUT = {"quick": 900, "thorough": 3600}
 MOD = "vf.checks.c13"
